@@ -647,3 +647,172 @@ Proof.
       * split; [|exact I2]. simpl. eapply rfits_weaken; [| |exact I1]; lia.
       * simpl. rewrite I3. simpl. rewrite U2. reflexivity.
 Qed.
+
+(* ---------------------------------------------------------------------------------------------- layout is chunked *)
+Lemma finish_Forall (P : entry -> Prop) out nz endz :
+  (forall e, P e -> P (fudge e)) -> (forall s e, P (mkpad s e)) -> Forall P out -> Forall P (finish out nz endz).
+Proof.
+  intros Hf Hp. induction out as [|e r IH]; intro H; [constructor|]. inversion H as [|? ? He Hr]; subst.
+  destruct r as [|e' r'].
+  - unfold finish. cbv zeta. fold (fudge e).
+    set (x := if (e_size e =? 0) && nz then fudge e else e).
+    assert (Hx : P x) by (unfold x; destruct (_ && _); auto).
+    destruct (e_end x <? endz); [apply Forall_cons; [exact Hx | apply Forall_cons; [apply Hp | apply Forall_nil]]
+                                | apply Forall_cons; [exact Hx | apply Forall_nil]].
+  - rewrite finish_cons by discriminate. constructor; auto.
+Qed.
+
+Lemma here_facts a i f off sz al :
+  arch_ok a -> wf_ty f -> (expands f = true -> lay_inv a f) -> sa std a f = (sz, al) -> (al | off) ->
+  let here := if expands f then lay std a f [i] off else [mkE [i] off (off + sz) sz al false] in
+  tiles here off (off + sz) /\ here <> [] /\ (sz <> 0 -> e_size (last here dummy) <> 0)
+  /\ Forall (leaf_wf al) here /\ first_at here off /\ Forall (fun e => e_pad e = false -> grp e = i) here.
+Proof.
+  intros Ha Hwf Hinv Esa Hd here. pose proof (sa_ok a f Ha Hwf) as Hok. rewrite Esa in Hok.
+  destruct Hok as (Hsz & Hpw & _ & Hdv). simpl in Hsz, Hpw, Hdv.
+  unfold here. destruct (expands f) eqn:Ex.
+  - specialize (Hinv eq_refl [i] off). unfold alignof, sizeof in Hinv. rewrite Esa in Hinv. simpl in Hinv.
+    destruct (Hinv Hd) as (F1 & F2 & F3 & F4 & F5 & F6 & F7 & F8). repeat split; auto.
+    eapply Forall_impl; [|exact F8]. intros e He Hp. destruct (He Hp) as (q & Hq & Hne).
+    unfold grp. rewrite Hq. reflexivity.
+  - split; [simpl; repeat split; lia|]. split; [discriminate|]. split; [simpl; auto|].
+    split; [constructor; [|constructor]; intros _; simpl; repeat split; auto; apply Z.divide_refl|].
+    split; [exists (mkE [i] off (off + sz) sz al false), []; simpl; auto|].
+    constructor; [|constructor]. intros _. reflexivity.
+Qed.
+
+Lemma fields_chunked a A nz endz :
+  arch_ok a -> (A | endz) ->
+  forall fs, fs <> [] ->
+    Forall (fun f => wf_ty f -> expands f = true -> lay_inv a f) fs ->
+    Forall wf_ty fs -> Forall (fun f => (alignof std a f | A)) fs ->
+    forall i o,
+      let L := lay_fields std a [] 0 fs i o o in
+      (e_size (last L dummy) = 0 -> nz = true -> end_from o (map (sa std a) fs) + 1 <= endz) ->
+      end_from o (map (sa std a) fs) <= endz ->
+      chunked A endz (length fs) i o (finish L nz endz).
+Proof.
+  intros Ha HAend fs. induction fs as [|f fs' IHfs]; intros Hne HIH Hwf Hal; [contradiction|].
+  inversion HIH as [|? ? Hf HIH']; subst. inversion Hwf as [|? ? Hwff Hwf']; subst.
+  inversion Hal as [|? ? Half Hal']; subst. intros i o L Hroom Hend.
+  pose proof (sa_ok a f Ha Hwff) as Hok.
+  unfold L in *. clear L. cbn [lay_fields map end_from length] in *.
+  unfold alignof in Half. destruct (sa std a f) as [sz al] eqn:Esa. cbv zeta in *.
+  destruct Hok as (Hsz & Hpw & _ & Hdv). simpl in Hsz, Hpw, Hdv, Half.
+  pose proof (pow2_pos _ Hpw) as Hpos_al.
+  pose proof (align_up_spec o al Hpos_al) as [[Hge _] Hdvo].
+  rewrite Z.add_0_l in *. set (off := align_up o al) in *.
+  set (padl := if o <? off then [mkpad o off] else []) in *.
+  assert (Hpos1 : (if o <? off then off else o) = off).
+  { destruct (o <? off) eqn:E; [reflexivity|]. apply Z.ltb_ge in E. lia. }
+  rewrite Hpos1 in *.
+  assert (Hpadl : Forall (fun e => e_pad e = true) padl).
+  { unfold padl. destruct (o <? off); repeat constructor. }
+  destruct (here_facts a i f off sz al Ha Hwff (Hf Hwff) Esa Hdvo) as (H1 & H2 & H3 & H4 & H5 & H6).
+  set (here := if expands f then lay std a f [i] off else [mkE [i] off (off + sz) sz al false]) in *.
+  change (rev [i]) with [i] in *. fold here in Hroom |- *.
+  destruct fs' as [|f' fs''].
+  - (* last field: finish acts on its lines *)
+    cbn [lay_fields map end_from length] in *. rewrite app_nil_r in *.
+    rewrite finish_app by exact H2.
+    replace (padl ++ finish here nz endz) with ((padl ++ finish here nz endz) ++ []) by apply app_nil_r.
+    apply ch_cons with (flo := off) (fhi := endz) (fal := al); auto.
+    + eapply Z.divide_trans; [exact Half|exact HAend].
+    + exists padl, (finish here nz endz). split; [reflexivity|]. split; [exact Hpadl|].
+      split.
+      { apply finish_tiles with (p := off + sz); auto. intros Hz Hnz. apply Hroom; auto.
+        rewrite last_app_ne by exact H2. exact Hz. }
+      split; [apply finish_first; exact H5|].
+      split; [apply finish_leaf_wf; exact H4|].
+      apply finish_Forall; auto. intros s e. simpl. discriminate.
+    + apply ch_nil. lia.
+  - (* more fields follow *)
+    set (fs' := f' :: fs'') in *.
+    pose proof (struct_align_ok a (map (sa std a) fs') Ha (fields_ok a fs' Ha (proj2 (wf_struct fs') Hwf'))) as _.
+    destruct (fields_inv a Ha [] 0 A (Z.divide_0_r A) fs' HIH' Hwf' Hal' (S i) (off + sz) (off + sz) ltac:(lia))
+      as (_ & _ & _ & _ & _ & F6 & _).
+    destruct (F6 ltac:(discriminate)) as [Hrne _].
+    set (rest := lay_fields std a [] 0 fs' (S i) (off + sz) (off + sz)) in *.
+    rewrite app_assoc. rewrite finish_app by exact Hrne.
+    apply ch_cons with (flo := off) (fhi := off + sz) (fal := al); auto.
+    + apply Z.divide_add_r; auto.
+    + exists padl, here. repeat split; auto.
+    + apply IHfs; auto; [discriminate|].
+      intros Hz Hnz. apply Hroom; auto. rewrite app_assoc. rewrite last_app_ne by exact Hrne. exact Hz.
+Qed.
+
+Lemma nonpad_id l : Forall (fun e => e_pad e = false) l -> nonpad l = l.
+Proof.
+  intro H. induction H as [|e r He Hr IH]; [reflexivity|]. unfold nonpad in *. simpl. rewrite He. simpl. f_equal. exact IH.
+Qed.
+
+(* what combine makes of a layout: one unit per top-level field, in order, each sane, and together fitting the
+   struct even when rounded up to their own alignments *)
+Theorem combine_layout_std a fs :
+  arch_ok a -> wf_ty (TStruct fs) ->
+  let t := TStruct fs in
+  let units := combine (layout std a t) in
+  map e_path units = map (fun g => [g]) (seq 0 (length fs))
+  /\ Forall (fun u => e_pad u = false /\ unit_wf u /\ (e_align u | alignof std a t)) units
+  /\ rsum units <= sizeof std a t.
+Proof.
+  intros Ha Hwf t units. destruct fs as [|g gs].
+  - unfold units, t. rewrite layout_nil. simpl. repeat split; [constructor | reflexivity].
+  - set (fs := g :: gs) in *.
+    pose proof (fields_ok a fs Ha Hwf) as Hall.
+    destruct (struct_align_ok a _ Ha Hall) as (Hpw & _ & Hdivs).
+    destruct (struct_size_ok a _ Ha Hall) as (Hend & Hdsz & Hsz0).
+    set (sas := map (sa std a) fs) in *.
+    assert (HA : alignof std a t = struct_align sas) by reflexivity.
+    assert (HS : sizeof std a t = struct_size sas) by reflexivity.
+    pose proof (pow2_pos _ Hpw) as Hpos.
+    assert (Hal : Forall (fun f => (alignof std a f | struct_align sas)) fs).
+    { unfold sas in Hdivs. rewrite Forall_map in Hdivs. exact Hdivs. }
+    pose proof (proj1 (wf_struct fs) Hwf) as Hwfs.
+    assert (HIH : Forall (fun f => wf_ty f -> expands f = true -> lay_inv a f) fs).
+    { rewrite Forall_forall. intros f _ Hf Hex. apply lay_inv_all; auto. }
+    destruct (fields_inv a Ha [] 0 (struct_align sas) (Z.divide_0_r _) fs HIH Hwfs Hal 0%nat 0 0 ltac:(lia))
+      as (F1 & _ & _ & _ & _ & F6 & _).
+    destruct (F6 ltac:(discriminate)) as [Hne Hlast]. fold sas in F1, Hlast.
+    set (nz := negb (struct_size sas =? 0)).
+    assert (Hroom : e_size (last (lay_fields std a [] 0 fs 0 0 0) dummy) = 0 -> nz = true -> end_from 0 sas + 1 <= struct_size sas).
+    { intros Hz Hnz. specialize (Hlast Hz). unfold nz in Hnz. apply negb_true_iff, Z.eqb_neq in Hnz.
+      unfold struct_size in *. unfold sas, fs in *. cbn [map] in *. cbv zeta in *.
+      rewrite Hlast in *. simpl (0 =? 0) in *. cbn [andb] in *.
+      destruct (end_from 0 _ =? 0) eqn:E; cbn [negb] in *.
+      - apply Z.eqb_eq in E. rewrite E in Hnz. exfalso. apply Hnz. apply align_up_mult; [exact Hpos | apply Z.divide_0_r].
+      - pose proof (align_up_ge (end_from 0 (sa std a g :: map (sa std a) gs) + 1) _ Hpos). lia. }
+    pose proof (fields_chunked a (struct_align sas) nz (struct_size sas) Ha Hdsz fs ltac:(discriminate)
+                  HIH Hwfs Hal 0%nat 0 Hroom Hend) as Hch.
+    assert (Hlay : layout std a t = finish (lay_fields std a [] 0 fs 0 0 0) nz (struct_size sas)).
+    { unfold layout, t. rewrite lay_struct. reflexivity. }
+    destruct (combine_chunked _ _ _ _ _ _ Hch None 0 (Z.le_refl 0)) as [[C1 C2] C3].
+    unfold units, combine. rewrite Hlay, HA, HS. split; [exact C3|]. split; [exact C2|].
+    apply rfits_rsum in C1. rewrite nonpad_id in C1; [lia|].
+    eapply Forall_impl; [|exact C2]. intros u Hu. apply Hu.
+Qed.
+
+(* optimize_not_larger, default path (combine) *)
+Theorem optimize_not_larger_std a fs l' :
+  arch_ok a -> wf_ty (TStruct fs) ->
+  let inp := layout std a (TStruct fs) in
+  Permutation (units_of false inp) l' -> sorted_by less_std l' ->
+  total (pad_units l') <= total inp.
+Proof.
+  intros Ha Hwf inp Hperm Hsort. unfold units_of in Hperm.
+  destruct (combine_layout_std a fs Ha Hwf) as (_ & C2 & C3). fold inp in C2, C3.
+  assert (Hnp : nonpad (combine inp) = combine inp).
+  { apply nonpad_id. eapply Forall_impl; [|exact C2]. intros u Hu. apply Hu. }
+  rewrite Hnp in Hperm.
+  assert (Htot : total inp = sizeof std a (TStruct fs)).
+  { destruct fs as [|g gs]; [reflexivity|].
+    destruct (lay_inv_all a Ha (TStruct (g :: gs)) Hwf eq_refl [] 0 (Z.divide_0_r _)) as (H1 & H2 & _).
+    unfold total. eapply tiles_end; eauto. }
+  rewrite Htot.
+  pose proof (sa_ok a _ Ha Hwf) as (Hs0 & Hpw & _ & Hdv). fold (sizeof std a (TStruct fs)) in *.
+  fold (alignof std a (TStruct fs)) in *.
+  apply optimize_not_larger_abs with (units := combine inp); auto.
+  - eapply Forall_impl; [|exact C2]. intros u Hu. apply Hu.
+  - eapply Z.divide_trans; [|exact Hdv]. apply units_align_divides.
+    eapply Forall_impl; [|exact C2]. intros u (_ & [_ Hp] & Hd). split; auto.
+Qed.
